@@ -16,6 +16,10 @@ Driver for C09.
   build <slot> <x|y> sub <c0> <c1> …     -> idem, xTopology(circuit, cells)
   upd <slot> <cell> <pos>                -> upd <slot> <value>
   check <slot>                           -> check <slot> ok|fail     (IncrNetModel::check() does not throw)
+  dprun <seed>                           -> (nothing)          the harness runs the real DetailedPlacer and derives the next lines
+  dpbuild                                -> dp <value>         DetailedPlacer(circuit, params): xtopo_, ytopo_; value()
+  dpupd <k> (<cell> <x> <y>)*k           -> dp <value>         DetailedPlacer::updateCellPos(cell, (x, y)) for each triple; value()
+  dpdump                                 -> dump dx … / dump dy …   the two models of the placer, complete
   dump <slot>                            -> dump <slot> P <cellPos> N <per net: nbNetPins (pinCell netPinOffset)*> C <per cell: nbCellPins (pinNet cellPinOffset)*>
 -/
 open ColoVerif ColoVerif.IncrNet Driver
@@ -23,6 +27,7 @@ open ColoVerif ColoVerif.IncrNet Driver
 structure St where
   circ : Circuit := ⟨[], [], []⟩
   slots : List (String × Model) := []
+  placer : PlacerModels := default
 
 def St.slot (s : St) (k : String) : Model := ((s.slots.find? (·.1 == k)).map (·.2)).getD default
 def St.setSlot (s : St) (k : String) (m : Model) : St :=
@@ -43,6 +48,10 @@ def dumpModel (k : String) (m : Model) : String :=
   s!"dump {k} P" ++ String.join (m.cellPos.map fun p => s!" {p}") ++ " N" ++ String.join nets ++ " C" ++ String.join cells
 
 def natOf (s : String) : Nat := (int! s).toNat
+
+def triples : List Int → List (Nat × Int × Int)
+  | a :: b :: c :: rest => (a.toNat, b, c) :: triples rest
+  | _ => []
 
 def step (s : St) (ws : List String) : St × List String :=
   match circuitLine s.circ ws with
@@ -74,6 +83,14 @@ def step (s : St) (ws : List String) : St × List String :=
   | ["upd", k, c, p] =>
     let m := (s.slot k).updateCellPos (natOf c) (int! p)
     (s.setSlot k m, [s!"upd {k} {m.value}"])
+  | ["dprun", _] => (s, [])
+  | ["dpbuild"] =>
+    let p := PlacerModels.build s.circ
+    ({ s with placer := p }, [s!"dp {p.value}"])
+  | "dpupd" :: _ :: rest =>
+    let p := s.placer.run (triples (ints rest))
+    ({ s with placer := p }, [s!"dp {p.value}"])
+  | ["dpdump"] => (s, [dumpModel "dx" s.placer.x, dumpModel "dy" s.placer.y])
   | ["check", k] => (s, [s!"check {k} " ++ (if (s.slot k).consistent then "ok" else "fail")])
   | ["dump", k] => (s, [dumpModel k (s.slot k)])
   | [] => (s, [])
